@@ -1517,7 +1517,9 @@ def gen_for_block(node, code, codegen):
         )
     codegen.gen_code_for_node(node.from_expr, code)
     gen_code_for_conv(var_type, node.from_expr, code, codegen)
-    code.add((f'store{scope}', var.name))
+    # (the loop variable is read and written like any other lvalue:
+    # it can be a parameter, which holds a reference)
+    gen_lvalue_write(node.var, code, codegen)
     codegen.gen_code_for_node(node.to_expr, code)
     gen_code_for_conv(var_type, node.to_expr, code, codegen)
     code.add(('storel', to_var))
@@ -1528,8 +1530,8 @@ def gen_for_block(node, code, codegen):
     # the type of the loop variable: "cmp" leaves -1, 0 or 1, which is
     # then multiplied by the sign of the step.
     code.add(('_label', check_label))
+    codegen.gen_code_for_node(node.var, code)
     code.add(
-        (f'read{scope}{type_char}', var.name),
         (f'readl{type_char}', to_var),
         ('cmp',),
         ('readl%', step_sign_var),
@@ -1541,14 +1543,14 @@ def gen_for_block(node, code, codegen):
     code.add(('_label', body_label))
     gen_code_for_block(node.body, code, codegen)
 
+    code.add(('_label', next_label))
+    codegen.gen_code_for_node(node.var, code)
     code.add(
-        ('_label', next_label),
-        (f'read{scope}{type_char}', var.name),
         (f'readl{type_char}', step_var),
         ('add',),
-        (f'store{scope}', var.name),
-        ('jmp', check_label),
     )
+    gen_lvalue_write(node.var, code, codegen)
+    code.add(('jmp', check_label))
 
     code.add(('_label', end_label))
 
